@@ -218,6 +218,7 @@ func translateFormulas(repo string, writeImp func(string, string, string)) {
 		facts = append(facts, strings.Join(strings.Fields(nodeStr(s)), " "))
 	}
 	b.WriteString("def equalBody : List String := [" + quoteAll(facts) + "]\n")
+	b.WriteString(translateSqrtChain(repo))
 	writeImp("Formulas.lean", "", b.String())
 }
 
@@ -232,4 +233,64 @@ func findMethodOf(f *ast.File, recvType, name string) *ast.FuncDecl {
 	}
 	die("method %s.%s not found", recvType, name)
 	return nil
+}
+
+// translateSqrtChain: the addition chain of sqrtAlg_ComputeRelevantPowers as data:
+// (op, dst, a, b, n) with op ∈ {"sq", "mul", "sqn"}
+func translateSqrtChain(repo string) string {
+	f := parse(filepath.Join(repo, "bandersnatch/fp/sqrt.go"))
+	fd := findFunc(f, "sqrtAlg_ComputeRelevantPowers")
+	name := func(e ast.Expr) string {
+		if u, ok := e.(*ast.UnaryExpr); ok && u.Op == token.AND {
+			e = u.X
+		}
+		id, ok := e.(*ast.Ident)
+		if !ok {
+			die("sqrt chain: unsupported operand %s", exprStr(e))
+		}
+		return id.Name
+	}
+	var ops []string
+	helper := ""
+	for _, s := range fd.Body.List {
+		switch x := s.(type) {
+		case *ast.DeclStmt:
+		case *ast.AssignStmt: // SquareEqNTimes := func(z, n) { for i := 0; i < n; i++ { z.Square(z) } }
+			if len(x.Lhs) == 1 && exprStr(x.Lhs[0]) == "SquareEqNTimes" {
+				helper = strings.Join(strings.Fields(nodeStr(x.Rhs[0])), " ")
+				continue
+			}
+			die("sqrt chain: unsupported assignment %s", nodeStr(s))
+		case *ast.ExprStmt:
+			c, ok := x.X.(*ast.CallExpr)
+			if !ok {
+				die("sqrt chain: unsupported statement %s", nodeStr(s))
+			}
+			if id, ok := c.Fun.(*ast.Ident); ok && id.Name == "SquareEqNTimes" && len(c.Args) == 2 {
+				n, ok := c.Args[1].(*ast.BasicLit)
+				if !ok {
+					die("sqrt chain: non-literal repetition count")
+				}
+				ops = append(ops, "(\"sqn\", "+leanString(name(c.Args[0]))+", \"\", \"\", "+n.Value+")")
+				continue
+			}
+			sel, ok := c.Fun.(*ast.SelectorExpr)
+			if !ok {
+				die("sqrt chain: unsupported call %s", nodeStr(s))
+			}
+			dst := name(sel.X)
+			switch {
+			case sel.Sel.Name == "Square" && len(c.Args) == 1:
+				ops = append(ops, "(\"sq\", "+leanString(dst)+", "+leanString(name(c.Args[0]))+", \"\", 0)")
+			case sel.Sel.Name == "Mul" && len(c.Args) == 2:
+				ops = append(ops, "(\"mul\", "+leanString(dst)+", "+leanString(name(c.Args[0]))+", "+leanString(name(c.Args[1]))+", 0)")
+			default:
+				die("sqrt chain: unsupported method %s", nodeStr(s))
+			}
+		default:
+			die("sqrt chain: unsupported statement %s", nodeStr(s))
+		}
+	}
+	return "def sqrtChainHelper : String := " + leanString(helper) + "\n" +
+		"def sqrtChain : List (String × String × String × String × Nat) := [\n  " + strings.Join(ops, ",\n  ") + "]\n"
 }
